@@ -50,9 +50,73 @@ def param_index(t):
     return t[2] if t[0] == "param" else None
 
 
+def ok_only_after_success(view, f, res_blocks):
+    """path by path: an `Ok(..)` built by f itself is returned only on paths that took the success edge of every fallible
+    call (blocks res_blocks) they made.  -> None, or the description of an offending path"""
+    from .rules_iter import _paths
+    from .core import edge_presence
+    paths = _paths(f)
+    if paths is None:
+        return "the method has a loop: not decided"
+    for pth in paths:
+        executed = [b2 for b2 in pth if b2 in res_blocks]
+        established = set()
+        last0 = None
+        for a, b2 in zip(pth, pth[1:]):
+            ta = f.term(a)
+            if ta["k"] == "switch" and len(f.cfg.succ[a]) >= 2:
+                d = strip(view.vp.operand(f, ta["discr"]))
+                if d[0] == "discr" and edge_presence(d, ta, b2) == "present":
+                    for x in walk(d):
+                        if x[0] == "call" and len(x) > 3 and isinstance(x[3], tuple) and x[3][0] == f.key and x[3][1] in res_blocks:
+                            established.add(x[3][1])
+        for b2 in pth:
+            for st in f.blocks[b2]["stmts"]:
+                if st["k"] == "assign" and st["place"]["local"] == 0 and not st["place"]["proj"]:
+                    last0 = st["rv"]
+        if last0 is not None and last0["k"] == "aggregate" and last0.get("variant") == "Ok":
+            missing = [b2 for b2 in executed if b2 not in established]
+            if missing:
+                return "returns Ok(..) on the path %s although the reservation at line %d was not seen to succeed on it" % (
+                    "->".join("bb%d" % x for x in pth[:14]), f.term(missing[0])["span"]["line"])
+    return None
+
+
+def _result_rebuilt(r, site):
+    """r returns what the fallible call at `site` returned, re-wrapped: `x?; Ok(())`, `match x { Ok(v) => Ok(v), Err(e) => Err(e) }`"""
+    def is_call(x):
+        x = strip(x)
+        return x[0] == "call" and len(x) > 3 and x[3] == site
+
+    def payload(x, variant):
+        x = strip(x)
+        return x[0] == "field" and x[2] == "0" and strip(x[1])[0] == "downcast" and strip(x[1])[2] == variant and is_call(strip(x[1])[1])
+
+    if r[0] != "phi":
+        return False
+    kinds = set()
+    for a in r[4]:
+        a = strip(a)
+        if a[0] == "adt" and a[1] == "std::result::Result" and a[2] == "Ok" and len(a[3]) == 1 and (strip(a[3][0]) == ("tuple", ()) or payload(a[3][0], "Ok")):
+            kinds.add("ok")
+        elif a[0] == "adt" and a[1] == "std::result::Result" and a[2] == "Err" and len(a[3]) == 1 and payload(a[3][0], "Err"):
+            kinds.add("err")
+        elif a[0] == "call" and a[1] == "std::ops::FromResidual::from_residual" and len(a[2]) == 1:
+            x = strip(a[2][0])
+            if x[0] == "field" and x[2] == "0" and strip(x[1])[0] == "downcast" and strip(x[1])[2] == "Break":
+                br = strip(strip(x[1])[1])
+                if br[0] == "call" and br[1] == "std::ops::Try::branch" and len(br[2]) == 1 and is_call(br[2][0]):
+                    kinds.add("err")
+                    continue
+            return False
+        else:
+            return False
+    return kinds == {"ok", "err"}
+
+
 def forwards(view, fn, callee_key, arg_params=None, recv_field=None):
     """fn's body is a single crate call `callee(self[.field], params...)` whose result is returned"""
-    calls = list(fn.calls())
+    calls = [(b, t) for b, t in fn.calls() if (t.get("func") or {}).get("key") not in ("std::ops::Try::branch", "std::ops::FromResidual::from_residual")]
     if len(calls) != 1 or fn.cfg.loops:
         return False, "body is not a single call (%d calls)" % len(calls)
     bb, t = calls[0]
@@ -71,7 +135,10 @@ def forwards(view, fn, callee_key, arg_params=None, recv_field=None):
             return False, "arguments %s are not the parameters %s unmodified" % ([term_str(a) for a in args[1:]], arg_params)
     r = ret_term(view, fn)
     if fn.j.get("output", {}).get("s") not in ("()",) and not (r[0] == "call" and r[3] == (fn.key, bb)):
-        return False, "result of the call is not what is returned (%s)" % term_str(r)
+        # `x?; Ok(())` / a match that rebuilds each variant: still the call's result, provided `Ok` is returned only on
+        # the call's success edge
+        if not (_result_rebuilt(r, (fn.key, bb)) and ok_only_after_success(view, fn, {bb}) is None):
+            return False, "result of the call is not what is returned (%s)" % term_str(r)
     return True, "forwards to %s" % callee_key
 
 
@@ -503,36 +570,8 @@ def r_capfwd(ctx, view):
             ctx.ob("R-CAPFWD", "Store::%s:errors-propagate" % name, not dropped, f.loc(),
                    "every reservation result is consumed" if not dropped else "result(s) discarded: %s" % dropped)
             # path by path: `Ok` is returned only after every reservation made on the path has been seen to succeed
-            from .rules_iter import _paths
-            from .core import edge_presence
-            paths = _paths(f)
-            bad_path = None
-            if paths is None:
-                bad_path = "the method has a loop: not decided"
-            else:
-                res_blocks = {e["bb"] for comp in ("map", "heap", "qp") for e in caps.get(comp, []) if e["name"] == name}
-                for pth in paths:
-                    executed = [b2 for b2 in pth if b2 in res_blocks]
-                    established = set()
-                    last0 = None
-                    for a, b2 in zip(pth, pth[1:]):
-                        ta = f.term(a)
-                        if ta["k"] == "switch" and len(f.cfg.succ[a]) >= 2:
-                            d = strip(view.vp.operand(f, ta["discr"]))
-                            if d[0] == "discr" and edge_presence(d, ta, b2) == "present":
-                                for x in walk(d):
-                                    if x[0] == "call" and len(x) > 3 and isinstance(x[3], tuple) and x[3][0] == f.key and x[3][1] in res_blocks:
-                                        established.add(x[3][1])
-                    for b2 in pth:
-                        for st in f.blocks[b2]["stmts"]:
-                            if st["k"] == "assign" and st["place"]["local"] == 0 and not st["place"]["proj"]:
-                                last0 = st["rv"]
-                    if last0 is not None and last0["k"] == "aggregate" and last0.get("variant") == "Ok":
-                        missing = [b2 for b2 in executed if b2 not in established]
-                        if missing:
-                            bad_path = "returns Ok(..) on the path %s although the reservation at line %d was not seen to succeed on it" % (
-                                "->".join("bb%d" % x for x in pth[:14]), f.term(missing[0])["span"]["line"])
-                            break
+            res_blocks = {e["bb"] for comp in ("map", "heap", "qp") for e in caps.get(comp, []) if e["name"] == name}
+            bad_path = ok_only_after_success(view, f, res_blocks)
             ctx.ob("R-CAPFWD", "Store::%s:ok-only-after-every-reservation-succeeded" % name, bad_path is None, f.loc(),
                    bad_path or "every path that returns Ok has taken the success edge of each reservation it made")
         for Q in QUEUES:
